@@ -1,5 +1,6 @@
 import Vegeta.Go.Proto
 import Vegeta.Model.Quantile
+import Vegeta.Model.TDigestMerge
 import Vegeta.Extracted.Facts
 /-! Driver operations of property C11 (ops are named `c11.<name>`).
 Floats travel as the decimal rendering of their IEEE-754 bit pattern; the model runs over
@@ -12,9 +13,18 @@ Floats travel as the decimal rendering of their IEEE-754 bit pattern; the model 
 * `c11.hdr <digest> requests` → `ok n value,q,count,oneBy …` rows over the *extracted* ladder
 
 `<digest>` = `n mean1 weight1 … meann weightn processedWeight min max`.
+
+Compression pass (Model/TDigestMerge.lean), with the two parameters supplied as observed oracles:
+* `c11.add <state> x w <oracle>`  → the state after `Add(x, w)` (which runs `process` when a buffer is over its size)
+* `c11.process <state> <oracle>`  → the state after `process()` (the call `Quantile` starts with)
+`<state>`  = `maxProcessed maxUnprocessed np (mean weight)* nu (mean weight)* processedWeight unprocessedWeight min max`
+`<oracle>` = `k idx1 … idxk` (the permutation `sort.Sort` produced on unprocessed ++ processed) `initLimit`
+             `t (soFar limit)*` (the limit computed after each newly started centroid, keyed by `soFar`)
+answer: `ok np (mean weight)* nu (mean weight)* processedWeight unprocessedWeight min max`, `panic`, or
+`badsort` when the permutation is malformed or does not sort by mean.
 -/
 namespace Vegeta.Driver.C11
-open Vegeta.Go Vegeta.Go.Proto Vegeta.Model.Quantile
+open Vegeta.Go Vegeta.Go.Proto Vegeta.Model.Quantile Vegeta.Model.TDigestMerge
 
 def f64 : P F64 := do let b ← nat; pure ⟨b⟩
 
@@ -25,6 +35,46 @@ def digest : P (Digest F64) := do
   let cs ← listOf centroid
   let w ← f64; let mn ← f64; let mx ← f64
   pure ⟨cs, w, mn, mx⟩
+
+def tdState : P (TD F64) := do
+  let mp ← nat; let mu ← nat
+  let pr ← listOf centroid
+  let un ← listOf centroid
+  let w ← f64; let uw ← f64; let mn ← f64; let mx ← f64
+  pure ⟨pr, un, w, uw, mn, mx, mp, mu⟩
+
+structure Oracle where
+  perm : List Nat
+  init : F64
+  table : List (Nat × F64)
+
+def oracle : P Oracle := do
+  let perm ← listOf nat
+  let i ← f64
+  let t ← listOf (do let a ← nat; let b ← f64; pure (a, b))
+  pure ⟨perm, i, t⟩
+
+def Oracle.lim (o : Oracle) : Lim F64 :=
+  { init := fun _ => o.init
+    next := fun soFar _ => match o.table.find? (fun p => p.1 == soFar.bits) with
+      | some p => p.2
+      | none => F64.nan }
+
+def showCentroids (cs : List (Centroid F64)) : String :=
+  cs.foldl (fun s c => s ++ " " ++ toString c.mean.bits ++ " " ++ toString c.weight.bits) (toString cs.length)
+
+def showTD (s : TD F64) : String :=
+  "ok " ++ showCentroids s.processed ++ " " ++ showCentroids s.unprocessed ++ " " ++ toString s.processedWeight.bits ++ " " ++
+    toString s.unprocessedWeight.bits ++ " " ++ toString s.min.bits ++ " " ++ toString s.max.bits
+
+/-- the oracle permutation must be a permutation that sorts the buffer the way `sort.Sort` leaves it -/
+def oracleOK (o : Oracle) (all : List (Centroid F64)) : Bool :=
+  isPermOfRange o.perm all.length && sortedByMean (applyPerm o.perm all)
+
+def showOutcomeTD (o : Outcome (TD F64)) : String :=
+  match o with
+  | .ok s => showTD s
+  | _ => "panic"
 
 def handle (op : String) (args : List String) : Option String :=
   match op with
@@ -50,6 +100,16 @@ def handle (op : String) (args : List String) : Option String :=
     | .ok rs => pure (rs.foldl (fun s r => s ++ " " ++ toString r.value.bits ++ "," ++ toString r.q.bits ++ ","
         ++ toString r.count ++ "," ++ toString r.oneBy.bits) ("ok " ++ toString rs.length))
     | _ => pure "panic"
+  | "c11.add" => do
+    let ((s, x, w, o), _) ← (do let s ← tdState; let x ← f64; let w ← f64; let o ← oracle; pure (s, x, w, o)).run args
+    let all := (s.unprocessed ++ [⟨x, w⟩]) ++ s.processed
+    let willProcess := F64.le x x && (decide (s.processed.length > s.maxProcessed) || decide (s.unprocessed.length + 1 > s.maxUnprocessed))
+    if willProcess && !oracleOK o all then pure "badsort" else
+    pure (showOutcomeTD (add o.lim (applyPerm o.perm) s x w))
+  | "c11.process" => do
+    let ((s, o), _) ← (do let s ← tdState; let o ← oracle; pure (s, o)).run args
+    if needsProcess s && !oracleOK o (s.unprocessed ++ s.processed) then pure "badsort" else
+    pure (showOutcomeTD (process o.lim (applyPerm o.perm) s))
   | _ => none
 
 end Vegeta.Driver.C11
